@@ -19,7 +19,7 @@ Definition payload (o : op) : list Z := match o with DataReceived d => d | _ => 
 Definition data_of (r : res) : list Z := match r with RData c => c | _ => [] end.
 
 Ltac split_all :=
-  unfold send_wait_result;
+  unfold send_wait_result, send_write, write_event_set, write_event_set0, clear_prew;
   repeat match goal with
          | |- context [if ?b then _ else _] => destruct b
          | |- context [match ?x with _ => _ end] => destruct x
@@ -36,7 +36,7 @@ Lemma res_write_event_set s :
   g_recv (write_event_set s) = g_recv s /\ g_ret (write_event_set s) = g_ret s /\
   g_written (write_event_set s) = g_written s /\ rq (write_event_set s) = rq s /\
   closed (write_event_set s) = closed s /\ reading (write_event_set s) = reading s.
-Proof. unfold write_event_set. destruct (wval s (wev s)); cbn; auto 10. Qed.
+Proof. unfold write_event_set, write_event_set0. cbn. destruct (wval s (wev s)); cbn; auto 10. Qed.
 
 Lemma recv_finish_fields s t mx :
   let s' := fst (recv_finish s t mx) in
@@ -49,6 +49,39 @@ Proof.
   - destruct (closed s) eqn:Ec; [|destruct (exc s)]; cbn; rewrite ?app_nil_r, ?Ec; auto 12.
   - destruct (Nat.ltb mx (length c)); [cbn; auto 12|]. destruct r; cbn; auto 12.
 Qed.
+
+Ltac conjs := repeat match goal with |- _ /\ _ => split end.
+
+Lemma send_write_fields s t item pw :
+  let s' := fst (send_write s t item pw) in
+  let r := snd (send_write s t item pw) in
+  g_recv s' = g_recv s /\ g_ret s' = g_ret s /\ data_of r = [] /\
+  eof s' = eof s /\ g_lostclean s' = g_lostclean s /\ closed s' = closed s /\ exc s' = exc s /\
+  reading s' = reading s /\ rq s' = rq s /\ rev s' = rev s /\ tclosing s' = tclosing s /\
+  (forall u, u <> t -> phase_of s' u = phase_of s u) /\
+  (phase_of s' t = Idle \/ exists ev, phase_of s' t = SendWait ev FPending) /\
+  r <> REndOfStream /\ (forall c, r <> RData c).
+Proof.
+  assert (U : forall (ph : tid -> phase) p u, u <> t -> upd ph t p u = ph u) by (intros; apply upd_other; assumption).
+  unfold send_write.
+  destruct (closed s) eqn:Ec;
+    [cbn; rewrite ?Ec, ?upd_same; conjs; auto; try discriminate|].
+  destruct (exc s) eqn:Ex;
+    [cbn; rewrite ?Ec, ?Ex, ?upd_same; conjs; auto; try discriminate|].
+  destruct (weof s);
+    [destruct (tclosing s) eqn:Et; cbn; rewrite ?Ec, ?Ex, ?Et, ?upd_same; conjs; auto; try discriminate|].
+  destruct pw; cbn;
+    repeat match goal with |- context [if ?b then _ else _] => destruct b end; cbn; rewrite ?Ec, ?Ex, ?upd_same;
+    conjs; auto; try discriminate; try (right; eexists; reflexivity).
+Qed.
+
+Ltac use_swf s0 t0 item0 pw0 :=
+  let F := fresh "F" in
+  pose proof (send_write_fields s0 t0 item0 pw0) as F; cbn zeta in F;
+  let F1 := fresh in let F2 := fresh in let F3 := fresh in let F4 := fresh in let F5 := fresh in let F6 := fresh in
+  let F7 := fresh in let F8 := fresh in let F9 := fresh in let F10 := fresh in let F11 := fresh in let F12 := fresh in
+  destruct F as (F1 & F2 & F3 & F4 & F5 & F6 & F7 & F8 & F9 & F10 & F11 & F12);
+  rewrite ?F1, ?F2, ?F3, ?F4, ?F5, ?F6, ?F7, ?F8, ?F9, ?F10, ?F11.
 
 Lemma ghost_recv_finish s t mx :
   g_recv (fst (recv_finish s t mx)) = g_recv s /\
@@ -72,12 +105,16 @@ Proof.
       destruct (mustc s t); [destruct p; cbn; rewrite ?app_nil_r; auto|].
       rewrite app_nil_r. apply (ghost_recv_finish (set_reading s false)).
     + destruct (mustc s t); [cbn; rewrite ?app_nil_r; auto|].
-      destruct (closed s); [cbn; rewrite ?app_nil_r; auto|].
-      destruct (exc s); [cbn; rewrite ?app_nil_r; auto|].
-      destruct (weof s); [destruct (tclosing s); cbn; rewrite ?app_nil_r; auto|].
-      destruct pw; cbn; split_all; cbn; rewrite ?app_nil_r; auto.
-    + unfold send_wait_result; destruct f; [| destruct (mustc s t) |]; cbn; split_all; cbn; rewrite ?app_nil_r; auto.
-    + destruct (mustc s t); cbn; rewrite ?app_nil_r; auto.
+      destruct (andb _ _); [cbn; rewrite ?app_nil_r; auto|].
+      destruct (send_write_fields s t item pw) as (A & B & C & _). cbn zeta in A, B, C.
+      rewrite A, B, C, ?app_nil_r. auto.
+    + destruct f; [cbn; rewrite ?app_nil_r; auto| |cbn; rewrite ?app_nil_r; auto].
+      destruct (mustc s t); [cbn; rewrite ?app_nil_r; auto|].
+      destruct (prew s t) as [it|].
+      * destruct (send_write_fields (clear_prew s t) t it pw) as (A & B & C & _). cbn zeta in A, B, C.
+        rewrite A, B, C, ?app_nil_r. auto.
+      * unfold send_wait_result; cbn; split_all; cbn; rewrite ?app_nil_r; auto.
+    + destruct (mustc s t); [destruct p|]; cbn; rewrite ?app_nil_r; auto.
   - destruct (phase_of s t) as [|mx|mx f|item|ev f|]; try destruct f; cbn; rewrite ?app_nil_r; auto.
   - destruct d as [|b d]; [cbn; rewrite ?app_nil_r; auto|].
     cbn [fst snd data_of]. rewrite app_nil_r.
@@ -252,7 +289,7 @@ Proof.
   { intros s0. unfold read_event_set. destruct (rev s0); cbn; auto. }
   assert (WE : forall s0, eof (write_event_set s0) = eof s0 /\ g_lostclean (write_event_set s0) = g_lostclean s0 /\
                           closed (write_event_set s0) = closed s0).
-  { intros s0. unfold write_event_set. destruct (wval s0 (wev s0)); cbn; auto. }
+  { intros s0. unfold write_event_set, write_event_set0. cbn. destruct (wval s0 (wev s0)); cbn; auto. }
   assert (RF : forall s0 t mx, eof (fst (recv_finish s0 t mx)) = eof s0 /\
                  g_lostclean (fst (recv_finish s0 t mx)) = g_lostclean s0 /\
                  closed (fst (recv_finish s0 t mx)) = closed s0).
@@ -269,12 +306,12 @@ Proof.
       destruct (mustc s t); [destruct p; cbn; auto 10|].
       destruct (RF (set_reading s false) t mx) as (A & B & C). rewrite A, B, C. cbn. auto 10.
     + destruct (mustc s t); [cbn; auto 10|].
-      destruct (closed s) eqn:Ec; [cbn; rewrite ?Ec; auto 10|].
-      destruct (exc s); [cbn; rewrite ?Ec; auto 10|].
-      destruct (weof s); [cbn; rewrite ?Ec; auto 10|].
-      destruct pw; cbn; split_all; cbn; rewrite ?Ec; auto 10.
-    + unfold send_wait_result; destruct f; [| destruct (mustc s t) |]; cbn; split_all; cbn; auto 10.
-    + destruct (mustc s t); cbn; auto 10.
+      destruct (andb _ _); [cbn; auto 10|].
+      use_swf s t item pw. auto 10.
+    + destruct f; [cbn; auto 10| |cbn; auto 10].
+      destruct (mustc s t); [cbn; auto 10|].
+      destruct (prew s t) as [it|]; [use_swf (clear_prew s t) t it pw; cbn; auto 10|cbn; auto 10].
+    + destruct (mustc s t); [destruct p|]; cbn; auto 10.
   - destruct (phase_of s t) as [|mx|mx f|item|ev f|]; try destruct f; cbn; auto 10.
   - destruct d as [|b d]; [cbn; auto 10|]. cbn [fst].
     set (sa := set_g_recv _ _). destruct (RE sa) as (A & B & C).
@@ -325,7 +362,7 @@ Theorem sock_send_after_close p r0 s t item :
 Proof.
   intros R Hc Hp Hg. cbn [stepv]. rewrite Hp, Hg. cbn.
   split; [reflexivity|]. split; [apply upd_same|].
-  intros s2 pw P2 C2 M2. rewrite P2, M2, C2. cbn. auto.
+  intros s2 pw P2 C2 M2. rewrite P2, M2, C2. rewrite Bool.andb_false_r. unfold send_write. rewrite C2. cbn. auto.
 Qed.
 
 (* receive() on a locally closed stream never waits for the read event: it takes the checkpoint branch and
@@ -395,6 +432,29 @@ Qed.
 (* ------------------------------------------------------------------------------------------ *)
 (* 5. send_waits_for_write_gate                                                                *)
 (* ------------------------------------------------------------------------------------------ *)
+Lemma send_write_gate s t item pw s' :
+  (send_write s t item pw = (s', RDone) ->
+     wval s' (wev s') = true /\ g_written s' = g_written s ++ item) /\
+  (send_write s t item pw = (s', RBlocked) ->
+     phase_of s' t = SendWait (wev s') FPending /\ wval s' (wev s') = false /\
+     g_written s' = g_written s ++ item).
+Proof.
+  unfold send_write.
+  destruct (closed s); [split; intros H; injection H as _ H; discriminate|].
+  destruct (exc s); [split; intros H; injection H as _ H; discriminate|].
+  destruct (weof s); [split; intros H; injection H as _ H; destruct (tclosing s); discriminate|].
+  set (pend := if wval s (wev s) then _ else _).
+  set (s1 := set_g_pending (set_g_written s (g_written s ++ item)) pend).
+  set (s2 := if pw then pause_writing s1 else s1).
+  assert (G2 : g_written s2 = g_written s ++ item) by (unfold s2; destruct pw; reflexivity).
+  destruct (wval s2 (wev s2)) eqn:Ew; split; intros H; injection H as <-; try discriminate.
+  - cbn. auto.
+  - cbn. rewrite upd_same. auto.
+Qed.
+
+(* a send() hands its item to the transport exactly once, and returns normally only with the write gate open; when it
+   suspends it waits on the CURRENT, unset write event - either after its write, or (HEAD, commit 58a3fa8) before it,
+   with nothing written yet *)
 Theorem send_waits_for_write_gate p r0 s t pw s' :
   reachv p r0 s ->
   (forall item, phase_of s t = SendYield item ->
@@ -402,25 +462,33 @@ Theorem send_waits_for_write_gate p r0 s t pw s' :
         wval s' (wev s') = true /\ g_written s' = g_written s ++ item) /\
      (stepv p s (Resume t pw) = (s', RBlocked) ->
         phase_of s' t = SendWait (wev s') FPending /\ wval s' (wev s') = false /\
-        g_written s' = g_written s ++ item)) /\
+        (g_written s' = g_written s ++ item \/
+         (p = false /\ g_written s' = g_written s /\ prew s' t = Some item)))) /\
   (forall ev f, phase_of s t = SendWait ev f ->
-     stepv p s (Resume t pw) = (s', RDone) -> f = FSet /\ wval s ev = true).
+     stepv p s (Resume t pw) = (s', RDone) ->
+     f = FSet /\ wval s ev = true /\
+     (forall item, prew s t = Some item -> wval s' (wev s') = true /\ g_written s' = g_written s ++ item) /\
+     (prew s t = None -> g_written s' = g_written s)).
 Proof.
   intros R. pose proof (reachv_inv p r0 s R) as I. split.
   - intros item Ep. cbn [stepv]. rewrite Ep.
     destruct (mustc s t); [split; intros H; injection H as _ H; discriminate|].
-    destruct (closed s); [split; intros H; injection H as _ H; discriminate|].
-    destruct (exc s); [split; intros H; injection H as _ H; discriminate|].
-    destruct (weof s); [split; intros H; injection H as _ H; destruct (tclosing s); discriminate|].
-    set (s1 := set_g_written s (g_written s ++ item)).
-    set (s2 := if pw then pause_writing s1 else s1).
-    assert (G2 : g_written s2 = g_written s ++ item) by (unfold s2; destruct pw; reflexivity).
-    destruct (wval s2 (wev s2)) eqn:Ew; split; intros H; injection H as <-; try discriminate.
-    + cbn. auto.
-    + cbn. rewrite upd_same. auto.
+    destruct (andb (negb p) (andb (negb (closed s)) (negb (wval s (wev s))))) eqn:Eb.
+    + split; intros H; injection H as <-.
+      * discriminate.
+      * apply Bool.andb_true_iff in Eb. destruct Eb as [Ep' Eb]. apply Bool.andb_true_iff in Eb. destruct Eb as [_ Eb].
+        apply Bool.negb_true_iff in Eb. apply Bool.negb_true_iff in Ep'.
+        cbn. rewrite !upd_same. auto 10.
+    + destruct (send_write_gate s t item pw s') as [A B]. split; [exact A|].
+      intros H. destruct (B H) as (X & Y & Z). auto.
   - intros ev f Ep H. cbn [stepv] in H. rewrite Ep in H.
     destruct f; try (injection H as _ H; discriminate).
-    split; [reflexivity|]. apply (I_sw s I t ev FSet Ep). reflexivity.
+    split; [reflexivity|]. split; [apply (I_sw s I t ev FSet Ep); reflexivity|].
+    destruct (mustc s t); [injection H as _ H; discriminate|].
+    destruct (prew s t) as [it|] eqn:Epw.
+    + split; [|discriminate]. intros item E. injection E as <-.
+      destruct (send_write_gate (clear_prew s t) t it pw s') as [A _]. apply (A H).
+    + split; [discriminate|]. intros _. injection H as <- _. reflexivity.
 Qed.
 
 (* an unset write event becomes set only through resume_writing / connection_lost *)
@@ -433,6 +501,16 @@ Proof.
   { intros s0 t mx. destruct (recv_finish_fields s0 t mx) as (_ & _ & _ & A & _). auto. }
   assert (PW : forall s0, wval s0 = wval s -> wev s0 = wev s -> wval (pause_writing s0) ev = false).
   { intros s0 A B. cbn. rewrite A, B. rewrite upd_other by lia. exact Hv. }
+  assert (SW : forall s0 t item pw, wval s0 = wval s -> wev s0 = wev s ->
+                 wval (fst (send_write s0 t item pw)) ev = false).
+  { intros s0 t item pw A B. unfold send_write.
+    destruct (closed s0); [cbn; congruence|]. destruct (exc s0); [cbn; congruence|].
+    destruct (weof s0); [cbn; congruence|].
+    destruct pw.
+    - pose proof (PW (set_g_pending (set_g_written s0 (g_written s0 ++ item))
+                        (if wval s0 (wev s0) then 1 else S (g_pending s0))) A B) as Q.
+      cbn in *. repeat match goal with |- context [if ?b then _ else _] => destruct b end; cbn; congruence.
+    - cbn. repeat match goal with |- context [if ?b then _ else _] => destruct b end; cbn; congruence. }
   destruct o as [t mx|t item|t|t|t pw|t|d| |e| |]; cbn [stepv] in H; eauto.
   - exfalso. revert H. split_all; cbn; congruence.
   - exfalso. revert H. split_all; cbn; congruence.
@@ -444,15 +522,13 @@ Proof.
     + destruct f; [cbn in H; congruence| |destruct p; cbn in H; congruence].
       destruct (mustc s t); [destruct p; cbn in H; congruence|]. rewrite RF in H. cbn in H. congruence.
     + destruct (mustc s t); [cbn in H; congruence|].
-      destruct (closed s); [cbn in H; congruence|].
-      destruct (exc s); [cbn in H; congruence|].
-      destruct (weof s); [cbn in H; congruence|].
-      destruct pw.
-      * pose proof (PW (set_g_written s (g_written s ++ item)) eq_refl eq_refl) as Q.
-        revert H. split_all; cbn in *; congruence.
-      * revert H. split_all; cbn; congruence.
-    + unfold send_wait_result in H; destruct f; [| destruct (mustc s t) |]; cbn in H; congruence.
-    + destruct (mustc s t); cbn in H; congruence.
+      destruct (andb _ _); [cbn in H; congruence|].
+      rewrite (SW s t item pw eq_refl eq_refl) in H. congruence.
+    + destruct f; [cbn in H; congruence| |cbn in H; congruence].
+      destruct (mustc s t); [cbn in H; congruence|].
+      destruct (prew s t) as [it|]; [|cbn in H; congruence].
+      rewrite (SW (clear_prew s t) t it pw eq_refl eq_refl) in H. congruence.
+    + destruct (mustc s t); [destruct p|]; cbn in H; congruence.
   - exfalso. destruct (phase_of s t) as [|mx|mx f|item|e f|]; try destruct f; cbn in H; congruence.
   - exfalso. destruct d as [|b d]; [cbn in H; congruence|]. cbn [fst] in H.
     set (sa := set_g_recv _ _) in H.
@@ -475,7 +551,7 @@ Proof.
   assert (RE : forall s0, exc (read_event_set s0) = exc s0 /\ g_lostclean (read_event_set s0) = g_lostclean s0).
   { intros s0. unfold read_event_set. destruct (rev s0); cbn; auto. }
   assert (WE : forall s0, exc (write_event_set s0) = exc s0 /\ g_lostclean (write_event_set s0) = g_lostclean s0).
-  { intros s0. unfold write_event_set. destruct (wval s0 (wev s0)); cbn; auto. }
+  { intros s0. unfold write_event_set, write_event_set0. cbn. destruct (wval s0 (wev s0)); cbn; auto. }
   assert (RF : forall s0 t mx, exc (fst (recv_finish s0 t mx)) = exc s0 /\
                  g_lostclean (fst (recv_finish s0 t mx)) = g_lostclean s0).
   { intros s0 t mx. unfold recv_finish. destruct (rq s0) as [|c r]; [cbn; auto|].
@@ -492,11 +568,11 @@ Proof.
     all: try (destruct f; [cbn; auto| |destruct p; cbn; auto];
               destruct (mustc s t); [destruct p; cbn; auto|];
               destruct (RF (set_reading s false) t mx) as (A & B); rewrite ?A, ?B; cbn; auto; fail).
-    all: try (destruct (mustc s t); [cbn; auto|]; destruct (closed s); [cbn; auto|];
-              destruct (exc s) eqn:Ex; [cbn; rewrite ?Ex; auto|]; destruct (weof s); [cbn; rewrite ?Ex; auto|];
-              destruct pw; cbn; split_all; cbn; rewrite ?Ex; auto; fail).
-    all: try (destruct f; [| destruct (mustc s t) |]; cbn; auto; fail).
-    all: try (destruct (mustc s t); cbn; auto; fail).
+    all: try (destruct (mustc s t); [cbn; auto|]; destruct (andb _ _); [cbn; auto|];
+              use_swf s t item pw; auto; fail).
+    all: try (destruct f; [cbn; auto| |cbn; auto]; destruct (mustc s t); [cbn; auto|];
+              destruct (prew s t) as [it|]; [use_swf (clear_prew s t) t it pw; cbn; auto|cbn; auto]; fail).
+    all: try (destruct (mustc s t); [destruct p|]; cbn; auto; fail).
   - refine (conj _ (conj _ (conj _ _))); try (intros; discriminate);
       destruct (phase_of s t) as [|mx|mx f|item|ev f|]; try destruct f; cbn; auto.
   - refine (conj _ (conj _ (conj _ _))); try (intros; discriminate);
@@ -540,17 +616,25 @@ Theorem send_returns_ok_only_if_not_lost r0 s t pw s' :
   (forall ev f, phase_of s t = SendWait ev f -> f = FSet /\ wval s ev = true).
 Proof.
   intros R Hs H. pose proof (reachv_inv false r0 s R) as I.
+  assert (SW : forall s0 it, closed s0 = closed s -> exc s0 = exc s -> send_write s0 t it pw = (s', RDone) ->
+                 closed s = false /\ exc s = None).
+  { intros s0 it A B E. unfold send_write in E. rewrite A, B in E.
+    destruct (closed s); [injection E as _ E; discriminate|].
+    destruct (exc s); [injection E as _ E; discriminate|]. auto. }
   cbn [stepv] in H. destruct (phase_of s t) as [|mx|mx f|item|ev f|] eqn:Ep; try discriminate.
   - destruct (mustc s t); [injection H as _ H; discriminate|].
-    destruct (closed s) eqn:Ec; [injection H as _ H; discriminate|].
-    destruct (exc s) eqn:Ex; [injection H as _ H; discriminate|].
-    refine (conj eq_refl (conj eq_refl _)). intros ev f E. discriminate.
+    cbn [negb andb] in H. destruct (andb _ _); [injection H as _ H; discriminate|].
+    destruct (SW s item eq_refl eq_refl H) as [A B].
+    refine (conj A (conj B _)). intros ev f E. discriminate.
   - destruct f; try (injection H as _ H; discriminate).
     destruct (mustc s t); [injection H as _ H; discriminate|].
-    unfold send_wait_result in H.
-    destruct (closed s) eqn:Ec; [injection H as _ H; discriminate|].
-    destruct (exc s) eqn:Ex; [injection H as _ H; discriminate|].
-    refine (conj eq_refl (conj eq_refl _)). intros ev' f' E. injection E as <- <-.
+    assert (CE : closed s = false /\ exc s = None).
+    { destruct (prew s t) as [it|].
+      - apply (SW (clear_prew s t) it eq_refl eq_refl H).
+      - unfold send_wait_result in H. cbn in H.
+        destruct (closed s) eqn:Ec; [injection H as _ H; discriminate|].
+        destruct (exc s) eqn:Ex; [injection H as _ H; discriminate|]. auto. }
+    destruct CE as [A B]. refine (conj A (conj B _)). intros ev' f' E. injection E as <- <-.
     split; [reflexivity|]. apply (I_sw s I t ev FSet Ep). reflexivity.
 Qed.
 
@@ -620,9 +704,22 @@ Qed.
 
 Lemma rinv_write_event_set s : RInv s -> RInv (write_event_set s).
 Proof.
-  intros H. unfold write_event_set. destruct (wval s (wev s)); [exact H|].
+  intros H. unfold write_event_set, write_event_set0. cbn [wval wev set_g_pending].
+  destruct (wval s (wev s)); [apply (rinv_keep s); [exact H|reflexivity|eauto]|].
   apply (rinv_keep s); [exact H|reflexivity|].
   intros t mx f P. cbn. unfold wake_writers. rewrite P. eauto.
+Qed.
+
+Lemma rinv_send_write s t item pw :
+  RInv s -> is_recv (phase_of s t) = false -> RInv (fst (send_write s t item pw)).
+Proof.
+  intros H Hn.
+  pose proof (send_write_fields s t item pw) as F. cbn zeta in F.
+  destruct F as (_ & _ & _ & _ & _ & _ & _ & F8 & _ & _ & _ & F12 & _).
+  apply (rinv_keep s); [exact H|exact F8|].
+  intros u m f P. destruct (Nat.eqb_spec u t) as [->|Hu].
+  - rewrite P in Hn. discriminate.
+  - rewrite (F12 u Hu). eauto.
 Qed.
 
 Lemma reading_recv_finish s t mx : reading (fst (recv_finish s t mx)) = reading s.
@@ -671,13 +768,12 @@ Proof.
         -- apply rinv_off. rewrite reading_recv_finish. reflexivity.
       * apply rinv_off. reflexivity.
     + destruct (mustc s t); [apply (rinv_keep s); [exact H|reflexivity|keep_other t Ep]|].
-      destruct (closed s); [apply (rinv_keep s); [exact H|reflexivity|keep_other t Ep]|].
-      destruct (exc s); [apply (rinv_keep s); [exact H|reflexivity|keep_other t Ep]|].
-      destruct (weof s); [apply (rinv_keep s); [exact H|reflexivity|keep_other t Ep]|].
-      destruct pw; cbn; split_all; cbn [fst];
-        (apply (rinv_keep s); [exact H|reflexivity|keep_other t Ep]).
+      destruct (andb _ _); cbn [fst]; [apply (rinv_keep s); [exact H|reflexivity|keep_other t Ep]|].
+      apply rinv_send_write; [exact H|rewrite Ep; reflexivity].
     + destruct f; cbn [fst]; [exact H| |apply (rinv_keep s); [exact H|reflexivity|keep_other t Ep]].
-      destruct (mustc s t); apply (rinv_keep s); try exact H; try reflexivity; keep_other t Ep.
+      destruct (mustc s t); [apply (rinv_keep s); [exact H|reflexivity|keep_other t Ep]|].
+      destruct (prew s t) as [it|]; [|apply (rinv_keep s); [exact H|reflexivity|keep_other t Ep]].
+      apply rinv_send_write; [apply (rinv_keep s); [exact H|reflexivity|eauto]|cbn; rewrite Ep; reflexivity].
     + destruct (mustc s t); cbn [fst]; apply (rinv_keep s); try exact H; try reflexivity; keep_other t Ep.
   - destruct (phase_of s t) as [|mx|mx f|item|ev f|] eqn:Ep; try destruct f; cbn [fst];
       try exact H; apply (rinv_keep s); try exact H; try reflexivity; try (keep_other t Ep); eauto.
